@@ -64,7 +64,8 @@ theorem less_cross_kind (order : List String) :
   diff := by
     intro x y h
     have hd : x.dir ≠ y.dir := fun e => h (by simp [kindOf, e])
-    simp [less, hd, kindOf]
+    unfold less kindOf
+    simp only [bne_iff_ne, ne_eq, hd, not_false_eq_true, if_true]
   same := fun _ _ _ => rfl
 
 example : kindOf Gen.defaultDirectiveOrder ⟨"respond", true, 0, []⟩ ≠ kindOf Gen.defaultDirectiveOrder ⟨"header", true, 1, [str "/a"]⟩ := by decide
@@ -89,7 +90,7 @@ theorem insertionSort_kind_subsequence (order : List String) (l : List RouteVal)
     (insertionSort (less order) l).filter (fun x => kindOf order x == c)
       = insertionSort (less order) (l.filter (fun x => kindOf order x == c)) := by
   unfold insertionSort isortR
-  rw [← List.filter_reverse]
+  rw [List.filter_reverse]
   have := (fold_inv (kindOf order) (less order) (less order) (less_cross_kind order) l [] trivial).2 c
   simp only [List.filter_nil] at this
   rw [this]
@@ -114,14 +115,16 @@ theorem sort_cross_kind_invariant_partial (order : List String) (l l' : List Rou
   exact insertionSort_cross_kind_invariant order l l' h
 
 /-- name used in DESIGN §4 -/
-theorem sort_cross_kind_invariant := @sort_cross_kind_invariant_partial
+theorem sort_cross_kind_invariant (order : List String) (l l' : List RouteVal)
+    (hl : l.length ≤ blockSize) (hl' : l'.length ≤ blockSize)
+    (h : SameKindSubsequences order l l') :
+    sortRoutes (less order) l = sortRoutes (less order) l' :=
+  sort_cross_kind_invariant_partial order l l' hl hl' h
 
 example : SameKindSubsequences Gen.defaultDirectiveOrder
     [⟨"respond", true, 1, [str "/a"]⟩, ⟨"header", true, 0, []⟩, ⟨"respond", true, 1, [str "/abc"]⟩]
-    [⟨"header", true, 0, []⟩, ⟨"respond", true, 1, [str "/a"]⟩, ⟨"respond", true, 1, [str "/abc"]⟩] := by
-  intro c
-  by_cases h1 : c = 9 <;> by_cases h2 : c = 32 <;> simp_all [kindOf, dirPos, dirPosFrom, Gen.defaultDirectiveOrder]
-  all_goals (first | decide | omega | skip)
+    [⟨"header", true, 0, []⟩, ⟨"respond", true, 1, [str "/a"]⟩, ⟨"respond", true, 1, [str "/abc"]⟩] :=
+  sameKindSubsequences_of_check _ _ _ (by decide)
 
 theorem sort_follows_directive_order (order : List String) (l : List RouteVal) (hl : l.length ≤ blockSize) :
     KindAscending order (sortRoutes (less order) l) := by
@@ -157,11 +160,17 @@ theorem sameKind_of_sameDirective (order : List String) (l l' : List RouteVal)
       apply List.filter_congr
       intro y hy
       by_cases hd : y.dir = x.dir
-      · simp [kindOf, hd, ← hc]
+      · have h1 : (kindOf order y == c) = true := by simp [kindOf, hd, ← hc]
+        have h2 : (y.dir == x.dir) = true := by simp [hd]
+        show (kindOf order y == c) = (y.dir == x.dir)
+        rw [h1, h2]
       · have : kindOf order y ≠ c := by
           intro e
           exact hd (dirPos_injective order y.dir x.dir (hm y hy) hxo (by simpa [kindOf] using e.trans hc.symm))
-        simp [hd, this]
+        have h1 : (kindOf order y == c) = false := by simpa using this
+        have h2 : (y.dir == x.dir) = false := by simpa using hd
+        show (kindOf order y == c) = (y.dir == x.dir)
+        rw [h1, h2]
     rw [key l ho, key l' ho', h x.dir]
   · have nil : ∀ (m : List RouteVal), (∀ y ∈ m, y ∈ l ∨ y ∈ l') → m.filter (fun y => kindOf order y == c) = [] := by
       intro m hm
